@@ -399,7 +399,7 @@ def _args(sp, case):
 def check_case(case):
     if case.get("kind") in ("hist", "aug"):
         return probes.run(case, PROPERTY_ID)
-    return {"form": _form, "wronglen": _wronglen, "unit": _unit, "scalartype": _scalartype, "badorder": _badorder, "goodorder": _goodorder, "badunit": _badunit,
+    return {"form": _form, "dtype": _dtype, "wronglen": _wronglen, "unit": _unit, "scalartype": _scalartype, "badorder": _badorder, "goodorder": _goodorder, "badunit": _badunit,
             "packed": _packed}[case["kind"]](case)
 
 
@@ -430,6 +430,62 @@ def _form(case):
         c.fail(site + "/array_raised", "1-D array form raised %s: %s but the %s form returned a value" % (type(ref).__name__, ref, form))
     elif not same_out(got, ref):
         c.fail(site + "/differs", "%s form gives %r, 1-D array form gives %r" % (form, got, ref))
+    return c.out
+
+
+ARRAY_DTYPES = ["float32", "int64", "int32", "int16", "int8", "uint8", "uint16"]
+
+
+def gen_dtypes(tier):
+    rawi = [[1.0, 2.0, 3.0, 4.0, 2.0, 1.0, 4.0, 2.0], [2.0, 1.0, 1.0, 2.0, 3.0, 1.0, 3.0, 2.0]]
+    rawn = [[1.0, -2.0, 3.0, 4.0, 2.0, -1.0, 4.0, 2.0], [2.0, 1.0, -1.0, 2.0, -3.0, 1.0, 3.0, -2.0]]
+    for name in sorted(table()):
+        for dt in ARRAY_DTYPES:
+            for raw in (rawi, rawn):
+                for anylen in (3, 4):
+                    yield {"kind": "dtype", "name": name, "dtype": dt, "raw": raw, "anylen": anylen}
+
+
+def s_dtype():
+    return st.fixed_dictionaries({"kind": st.just("dtype"), "name": st.sampled_from(sorted(table())), "dtype": st.sampled_from(ARRAY_DTYPES),
+                                  "raw": st.lists(st.lists(st.integers(-9, 9).map(float), min_size=8, max_size=8), min_size=2, max_size=2),
+                                  "anylen": st.integers(1, 6)})
+
+
+def _dtype(case):
+    """a 1-D array of any real NumPy element type holding the same numbers gives the same result as the float64 array"""
+    sp = table()[case["name"]]
+    dt = np.dtype(case["dtype"])
+    c = Checker("dtype", name=sp.name, dtype=case["dtype"])
+    if "array" not in sp.forms:
+        return c.out
+    vals = _args(sp, dict(case, ints=True))
+    if vals is None:
+        return c.out
+    if dt.kind == "u":
+        vals = [[abs(x) for x in v] for v in vals]
+        if sp.prep is not None:
+            vals = [list(sp.prep(v)) for v in vals]
+    arrs = [np.array(v, dtype=dt) for v in vals]
+    if not all(np.array_equal(a.astype(float), np.array(v, dtype=float)) for a, v in zip(arrs, vals)):
+        return c.out                      # not exactly representable in this element type
+    try:
+        ref = sp.fn([np.array(v, dtype=float) for v in vals])
+    except Exception as e:  # noqa
+        ref = e
+    try:
+        got = sp.fn(arrs)
+    except Exception as e:  # noqa
+        got = e
+    if isinstance(ref, Exception) and isinstance(got, Exception):
+        return c.out
+    site = sp.name
+    if isinstance(got, Exception):
+        c.fail(site + "/raised", "%s array raised %s: %s (float64 array works)" % (case["dtype"], type(got).__name__, got), exc=type(got).__name__)
+    elif isinstance(ref, Exception):
+        c.fail(site + "/float64_raised", "float64 array raised %s: %s but the %s array returned a value" % (type(ref).__name__, ref, case["dtype"]))
+    elif not probes.same(probes.snap(got), probes.snap(ref), 1e-12):
+        c.fail(site + "/differs", "%s array gives %r, float64 array gives %r" % (case["dtype"], got, ref))
     return c.out
 
 
@@ -604,6 +660,9 @@ def classify(case):
     if k == "form":
         lab.update({"form:" + case["form"]: True, "ints": case["ints"]})
         lab["nontrivial"] = case["form"] not in ("list", "array") or case["ints"]
+    elif k == "dtype":
+        lab["nontrivial"] = True
+        lab["dtype:" + case["dtype"]] = True
     elif k == "wronglen":
         lab["nontrivial"] = True
         lab["len:%d" % case["len"]] = True
@@ -621,6 +680,8 @@ def classify(case):
 def subchecks(tier):
     return [
         Sub("forms", gen=gen_forms, shards=(8, 16)),
+        Sub("dtypes", gen=gen_dtypes, shards=(8, 16)),
+        Sub("dtype_values", strategy=s_dtype(), n=(300, 6000), shards=(4, 16)),
         Sub("wronglen", gen=gen_wronglen, shards=(8, 16)),
         Sub("options", gen=gen_options, shards=(2, 4)),
         Sub("form_values", strategy=s_form(), n=(800, 10000), shards=(8, 16)),
